@@ -91,8 +91,8 @@ def run(ctx):
     quick = ctx.tier == "quick"
     if ctx.build_hx():
         seeds = [ctx.seed] if quick else [ctx.seed, ctx.seed + 1000, ctx.seed + 2000, ctx.seed + 3000]
-        n_or = 400 if quick else 6000
-        n_co = 300 if quick else 6000
+        n_or = 900 if quick else 4000
+        n_co = 300 if quick else 5000
         for s in seeds:
             ops, out, meta = ctx.run_hx("oracle", n_or, seed=s, timeout=1500)
             ctx.absorb_meta(meta)
@@ -106,8 +106,8 @@ def run(ctx):
             for line in open(ops, errors="replace"):
                 ctx.distinct.add(hashlib.sha1(line.encode()).digest())
         if ctx.broken and not ctx.fails:
-            for s in range(ctx.seed + 7000, ctx.seed + 7004):
-                ops, out, meta = ctx.run_hx("oracle", 3000, seed=s, tag="-widen", timeout=1500)
+            for s in range(ctx.seed + 7000, ctx.seed + 7003):
+                ops, out, meta = ctx.run_hx("oracle", 2000, seed=s, tag="-widen", timeout=1500)
                 ctx.absorb_meta(meta, prefix="widen_")
                 if ctx.fails:
                     break
